@@ -244,6 +244,18 @@ def r2(chk, prog, m):
         ok = len(sets) == 1 and len(get) == 1 and (len(rem) == 1) == (flag == 1)
         if ok and flag == 1:
             ok = _must_precede(mc, rem[0], sets[0], _calls_under_param.removed)
+        # the array callback: copy inserts like 'add' (bound = length); only move may use the callback that allows for the
+        # element it has just removed
+        cbname = _resolve_fnptr(mc, sets[0].ops[3], _calls_under_param.removed) if len(sets) == 1 else None
+        add_sets = [c for c in _calls_under_param(prog, ar, 3, 1) if c.callee == "json_pointer_set_with_array_cb"]
+        add_cb = _callee_name(add_sets[0].ops[3]) if add_sets else None
+        _calls_under_param(prog, mc, 3, flag)      # restore the pruning of this case
+        want_cb = add_cb if flag == 0 else cbname
+        if ok and flag == 0 and cbname != want_cb:
+            chk.refuted(rid, mc.name, "effects " + nm, sets[0].locstr(),
+                        "%s sets array elements through %s; RFC 6902 defines %s as 'add' of the copied value, whose array callback is %s (a "
+                        "different callback applies a different index bound)" % (nm, cbname, nm, want_cb))
+            continue
         if ok:
             chk.proven(rid, mc.name, "effects " + nm, sets[0].locstr(), "%s: resolve 'from'%s, then set" % (nm, ", delete it" if flag else ", no delete"))
         else:
@@ -287,6 +299,35 @@ def _calls_under_param(prog, fn, pidx, value):
     calls = [i for b in fn.blocks.values() if b in reach for i in b.instrs if i.op == "call" and i.callee]
     _calls_under_param.removed = rem
     return calls
+
+
+def _resolve_fnptr(fn, v, removed):
+    """name of the function a function-pointer operand denotes on the pruned CFG (through phis), or None"""
+    from .. import lin as _lin
+    reach = _lin._reach(fn, removed)
+    seen = 0
+    while seen < 6:
+        seen += 1
+        n = _callee_name(v)
+        if n:
+            return n
+        if v.kind != "reg" or v.v not in fn.defs:
+            return None
+        d = fn.defs[v.v]
+        if d.op == "bitcast":
+            v = d.ops[0]
+            continue
+        if d.op == "phi":
+            live = [val for val, lab in d.x["incoming"] if fn.blocks[lab] in reach and (lab, d.block.name) not in removed]
+            names = {_callee_name(x) for x in live}
+            if len(live) >= 1 and len(names) == 1 and None not in names:
+                return names.pop()
+            if len(live) == 1:
+                v = live[0]
+                continue
+            return None
+        return None
+    return None
 
 
 def _must_precede(fn, first, second, removed):
